@@ -179,6 +179,16 @@ class WebsocketSession(object):
             )
         except _SocketFail as error:
             self._socket_fail('unable to connect to proxy; {}', error)
+        try:
+            return self._negotiate_proxy(sock, _proxy_url)
+        except Exception:
+            # The proxy refused, hung up or sent garbage; the caller
+            # never gets to see this socket, so it is closed here
+            sock.close()
+            raise
+
+    def _negotiate_proxy(self, sock, _proxy_url):
+        """Ask the proxy for a tunnel to the server."""
         host = self.websocket.host
         if ':' in host:
             # An IPv6 literal needs its brackets in an authority
